@@ -1,0 +1,82 @@
+// Copyright 2025 Democratized Data Foundation
+//
+// Use of this software is governed by the Business Source License
+// included in the file licenses/BSL.txt.
+//
+// As of the Change Date specified in that file, in accordance with
+// the Business Source License, use of this software will be governed
+// by the Apache License, Version 2.0, included in the file
+// licenses/APL.txt.
+
+//go:build verif
+
+package net
+
+import (
+	"context"
+	gonet "net"
+
+	"github.com/ipfs/boxo/blockservice"
+	"github.com/ipfs/boxo/exchange/offline"
+	libpeer "github.com/libp2p/go-libp2p/core/peer"
+	"github.com/sourcenetwork/immutable"
+	grpcpeer "google.golang.org/grpc/peer"
+
+	"github.com/sourcenetwork/defradb/acp/dac"
+	"github.com/sourcenetwork/defradb/event"
+	"github.com/sourcenetwork/defradb/internal/datastore"
+)
+
+// VerifReceiver drives the receiving side of the push-log RPC (decode, DAG sync
+// with signature verification, merge event) without a libp2p host. Blocks are
+// resolved from the local blockstore only.
+//
+// It exists for the verification harness only (build tag verif).
+type VerifReceiver struct {
+	srv *server
+}
+
+type verifAddr string
+
+func (a verifAddr) Network() string { return "libp2p" }
+func (a verifAddr) String() string  { return string(a) }
+
+var _ gonet.Addr = verifAddr("")
+
+// NewVerifReceiver returns a receiver bound to the given bus and database.
+func NewVerifReceiver(ctx context.Context, bus event.Bus, db DB) *VerifReceiver {
+	bs := datastore.BlockstoreFrom(db.Rootstore())
+	p := &Peer{
+		bus:          bus,
+		ctx:          ctx,
+		db:           db,
+		documentACP:  immutable.None[dac.DocumentACP](),
+		blockService: blockservice.New(bs, offline.Exchange(bs)),
+	}
+	s := &server{peer: p}
+	p.server = s
+	return &VerifReceiver{srv: s}
+}
+
+// PushLog feeds one push-log request, as sent by the peer with the given id,
+// to the real handler and returns its error.
+func (r *VerifReceiver) PushLog(
+	ctx context.Context,
+	from libpeer.ID,
+	docID string,
+	cid []byte,
+	collectionID string,
+	creator string,
+	block []byte,
+	isReplicator bool,
+) error {
+	ctx = grpcpeer.NewContext(ctx, &grpcpeer.Peer{Addr: verifAddr(from.String())})
+	_, err := r.srv.processPushlog(ctx, &pushLogRequest{
+		DocID:        docID,
+		CID:          cid,
+		CollectionID: collectionID,
+		Creator:      creator,
+		Block:        block,
+	}, isReplicator)
+	return err
+}
